@@ -181,48 +181,138 @@ def scan_rule(R, rule, fn, field, start=('c', 0), nth=0, eng=None):
                if bad is None else bad)
 
 
+def _var_id(n):
+    n = cast.strip_all_casts(n) if n else None
+    if n is not None and cast.kind(n) == 'DeclRefExpr':
+        return n['referencedDecl']['id']
+    return None
+
+
+def _step_of(R, n, var):
+    """+1 / -1 / other constant if statement/expression n advances variable `var`, None if it does not touch it"""
+    n = cast.strip_all_casts(n)
+    k = cast.kind(n)
+    if k == 'UnaryOperator' and n.get('opcode') in ('++', '--') and _var_id(n['inner'][0]) == var:
+        return 1 if n['opcode'] == '++' else -1
+    if k == 'CompoundAssignOperator' and n.get('opcode') in ('+=', '-=') and _var_id(n['inner'][0]) == var:
+        v = R.u.const_value(n['inner'][1])
+        return None if v is None else (v if n['opcode'] == '+=' else -v)
+    if k == 'BinaryOperator' and n.get('opcode') == '=' and _var_id(n['inner'][0]) == var:
+        r = cast.strip_all_casts(n['inner'][1])
+        if cast.kind(r) == 'BinaryOperator' and r.get('opcode') in ('+', '-'):
+            x, y = r['inner']
+            if _var_id(x) == var and R.u.const_value(y) is not None:
+                return R.u.const_value(y) if r['opcode'] == '+' else -R.u.const_value(y)
+            if r['opcode'] == '+' and _var_id(y) == var and R.u.const_value(x) is not None:
+                return R.u.const_value(x)
+        return 'assigned'
+    return None
+
+
+def _loop_descriptor(R, fbody, n):
+    """(start, op, field, step, line) of a loop that runs an index against t-><field>; None for other loops.
+    Understands for / while / do-while with the advance anywhere it is executed exactly once per iteration: as the for
+    increment, or as the last statement of the body with every `continue` directly preceded by the same advance."""
+    k = cast.kind(n)
+    parts = n.get('inner', [])
+    init = inc = None
+    if k == 'ForStmt':
+        if len(parts) < 5:
+            return None
+        init, cond, inc, body = parts[0], parts[2], parts[3], parts[4]
+    elif k == 'WhileStmt':
+        cond, body = parts[0], parts[1]
+    elif k == 'DoStmt':
+        body, cond = parts[0], parts[1]
+    else:
+        return None
+    c = cast.strip_all_casts(cond) if cond else None
+    # a merged condition `index < t->field && ...` : the bound is the first conjunct
+    while c is not None and cast.kind(c) == 'BinaryOperator' and c.get('opcode') == '&&':
+        c = cast.strip_all_casts(c['inner'][0])
+    if c is None or cast.kind(c) != 'BinaryOperator' or c.get('opcode') not in ('<', '<=', '!=', '>', '>='):
+        return None
+    lhs, rhs = cast.strip_all_casts(c['inner'][0]), cast.strip_all_casts(c['inner'][1])
+    op = c['opcode']
+    if _var_id(lhs) is None and _var_id(rhs) is not None and cast.kind(lhs) == 'MemberExpr':
+        lhs, rhs = rhs, lhs
+        op = {'<': '>', '>': '<', '<=': '>=', '>=': '<=', '!=': '!='}[op]
+    var = _var_id(lhs)
+    if var is None or cast.kind(rhs) != 'MemberExpr' or rhs.get('name') not in ('entries', 'areas'):
+        return None
+    field = rhs.get('name')
+    # start value: the for-init, else the last constant given to the variable before the loop (declaration or assignment)
+    startv = None
+    line = cast.node_line(n)
+    if init is not None and cast.kind(init) == 'DeclStmt':
+        d = cast.inner(init)[0]
+        if d.get('id') == var and d.get('inner'):
+            startv = R.u.const_value(d['inner'][0])
+    elif init is not None and _step_of(R, init, var) == 'assigned':
+        startv = R.u.const_value(cast.strip_all_casts(init)['inner'][1])
+    if startv is None:
+        for x in cast.walk(fbody):
+            if x is n:
+                break
+            if cast.kind(x) == 'VarDecl' and x.get('id') == var and x.get('inner'):
+                startv = R.u.const_value(x['inner'][-1])
+            elif cast.kind(x) == 'BinaryOperator' and x.get('opcode') == '=' and _var_id(x['inner'][0]) == var:
+                startv = R.u.const_value(x['inner'][1])
+            elif _step_of(R, x, var) not in (None, 'assigned') and cast.kind(x) != 'BinaryOperator':
+                startv = None
+    # the advance
+    step = None
+    if inc is not None:
+        step = _step_of(R, inc, var)
+        if any(_step_of(R, x, var) is not None for x in cast.walk(body)):
+            step = 'also-in-body'
+    else:
+        stmts = cast.inner(body) if cast.kind(body) == 'CompoundStmt' else [body]
+        adv = [(i, _step_of(R, x, var)) for i, x in enumerate(stmts) if _step_of(R, x, var) is not None]
+        nested = [x for x in cast.walk(body) if _step_of(R, x, var) is not None]
+        conts = [x for x in cast.walk(body) if cast.kind(x) == 'ContinueStmt']
+        if len(adv) == 1 and adv[0][0] == len(stmts) - 1 and len(nested) == 1 and not conts:
+            step = adv[0][1]
+        elif len(adv) == 1 and adv[0][0] == 0 and len(nested) == 1 and k != 'DoStmt':
+            step = 'advance-first'      # index moves before the item is looked at: not this rule's shape
+        else:
+            step = 'unknown'
+    return (startv, op, field, step, line)
+
+
 def for_headers(R, rule, fn, expected):
-    """For functions whose path set is too large to carry every loop (register_init): the headers of its `for`
-    loops over the table, in source order, against the confirmed table [(start, field)].  Only the three header
-    parts are matched (init constant, `index < t->field`, `++index`), resolved through the AST."""
+    """For functions whose path set is too large to carry every loop (register_init): the range of its loops over the
+    table, in source order, against the confirmed table [(start, field)].  Start value, bound (`index < t->field`) and
+    advance (+1, once per iteration) are resolved through the AST; for / while / do-while forms and loops moved into a
+    helper that did not exist when the table was confirmed are all read the same way."""
     ck = R.ck
     f = R.u.fn(fn)
     if f is None:
         return ck.broken(rule, fn + ':scans', '', 'function missing')
     got = []
-    for n in cast.walk(R.u.body(fn)):
-        if cast.kind(n) != 'ForStmt':
-            continue
-        parts = n.get('inner', [])
-        if len(parts) < 5:
-            continue
-        init, cond, inc = parts[0], parts[2], parts[3]
-        var = None
-        startv = None
-        if cast.kind(init) == 'DeclStmt':
-            d = cast.inner(init)[0]
-            var = d.get('id')
-            startv = R.u.const_value(d['inner'][0]) if d.get('inner') else None
-        c = cast.strip_all_casts(cond) if cond else None
-        field = op = None
-        if c is not None and cast.kind(c) == 'BinaryOperator':
-            op = c.get('opcode')
-            lhs, rhs = cast.strip_all_casts(c['inner'][0]), cast.strip_all_casts(c['inner'][1])
-            if cast.kind(lhs) == 'DeclRefExpr' and lhs['referencedDecl']['id'] == var and cast.kind(rhs) == 'MemberExpr':
-                field = rhs.get('name')
-        i_ = cast.strip_all_casts(inc) if inc else None
-        step = None
-        if i_ is not None and cast.kind(i_) == 'UnaryOperator' and i_.get('opcode') in ('++', '--'):
-            tgt = cast.strip_all_casts(i_['inner'][0])
-            if cast.kind(tgt) == 'DeclRefExpr' and tgt['referencedDecl']['id'] == var:
-                step = 1 if i_['opcode'] == '++' else -1
-        got.append((startv, op, field, step, cast.node_line(n)))
+    known = sym.KNOWN_FUNCTIONS()
+
+    def visit(name, depth):
+        body = R.u.body(name)
+        for n in cast.walk(body):
+            if cast.kind(n) in ('ForStmt', 'WhileStmt', 'DoStmt'):
+                d = _loop_descriptor(R, body, n)
+                if d is not None:
+                    got.append(d)
+            elif cast.kind(n) == 'CallExpr' and depth < 3:
+                cn = cast.callee_name(n)
+                if cn and cn not in known and R.u.fn(cn) is not None and R.u.body(cn) is not None:
+                    visit(cn, depth + 1)
+    visit(fn, 0)
     bad = None
     if len(got) != len(expected):
-        return ck.broken(rule, fn + ':scans', R.where(fn), '%d for-loops found, the confirmed table has %d' % (len(got), len(expected)))
+        return ck.broken(rule, fn + ':scans', R.where(fn), '%d loops over the table found, the confirmed table has %d' % (len(got), len(expected)))
     for (startv, op, field, step, line), (es, ef) in zip(got, expected):
         if field != ef:
             return ck.broken(rule, fn + ':scans', '%s:%d' % (UNIT, line), 'loop bound is %s, the confirmed table says t->%s' % (field, ef))
+        if step in ('unknown', 'also-in-body', 'advance-first') or startv is None and es is not None and step == 1 and op == '<':
+            return ck.broken(rule, fn + ':scans', '%s:%d' % (UNIT, line),
+                             'the scan over t->%s is written in a form this rule cannot read (advance: %s, start: %s)' % (ef, step, startv))
         if startv != es or op != '<' or step != 1:
             bad = bad or ('the scan over t->%s at line %d runs from %s while index %s t->%s with step %s; it has to run from %d while index < t->%s with step +1'
                           % (ef, line, startv, op, ef, step, es, ef))
@@ -293,6 +383,7 @@ def _norm_term(t):
     x = sym.fmt(t)
     x = _re.sub(r'\?loop@\d+:', '', x)
     x = _re.sub(r'\?clobbered:', '', x)
+    x = _re.sub(r'\b\w+@\d+:', '', x)          # frames of helpers the engine looked through
     x = _re.sub(r'~\d+', '', x)
     x = _re.sub(r'#\d+', '', x)
     return x
